@@ -7,7 +7,7 @@ import ast
 from ..interp import cval, has_const
 from ..kinds import is_cart, is_frac
 from ..source import norm_text
-from .common import walk_no_nested
+from .common import bound_args, linear, nonneg_form, parse_sx, return_cases, walk_no_nested
 from .geo import all_geos, geo_text, kind_errors, uniq_events
 
 FT = 'gemdat.transitions.Transitions.from_trajectory'
@@ -144,12 +144,11 @@ def check(ctx):
     if len(calls) != 2:
         ctx.ob('R3', ffi, 'calls of _calculate_atom_states', None if calls else False, f'{len(calls)} state computations instead of outer + inner')
     else:
-        def kwtext(c):
-            return {k.arg: norm_text(k.value) for k in c.keywords if k.arg}
-        a, b = kwtext(calls[0]['node']), kwtext(calls[1]['node'])
+        cas_fi = ctx.fn(CAS)
+        a, b = (bound_args(cas_fi, c['args'], c['kwargs']) for c in calls)
         with_frac = [x for x in (a, b) if 'site_inner_fraction' in x]
         common = ('sites', 'trajectory', 'site_radius')
-        same = all(a.get(k) == b.get(k) and a.get(k) is not None for k in common)
+        same = all(a.get(k) is not None and b.get(k) is not None and a[k] == b[k] for k in common)
         if len(with_frac) != 1:
             ctx.ob('R3', ffi, calls[1]['node'], False, 'exactly one of the two assignments (the inner one) must receive the inner fraction'
                    if len(with_frac) == 0 else 'both assignments receive the inner fraction: the outer states are shrunk too')
@@ -165,17 +164,11 @@ def check(ctx):
             # which result becomes inner_states
             cons = [e for e in it.events if e['tag'] == 'construct' and e['where'] is not None and e['where'].qualname == FT and e['cls'] == 'gemdat.transitions.Transitions']
             for c in cons[:1]:
-                kw = {k.arg: norm_text(k.value) for k in c['node'].keywords if k.arg}
-                # find names assigned from the calls
-                names = {}
-                for n in walk_no_nested(ffi.node):
-                    if isinstance(n, ast.Assign) and len(n.targets) == 1 and isinstance(n.targets[0], ast.Name):
-                        if n.value is calls[0]['node']:
-                            names[n.targets[0].id] = calls[0]
-                        elif n.value is calls[1]['node']:
-                            names[n.targets[0].id] = calls[1]
-                si = names.get(kw.get('inner_states'))
-                so = names.get(kw.get('states'))
+                tfi = ctx.p.find_method(ctx.p.classes['gemdat.transitions.Transitions'], '__init__')
+                kw = bound_args(tfi, c['args'], c['kwargs'], skip_self=True) if tfi is not None else dict(c['kwargs'])
+                by_sx = {it.sx(x['node']): x for x in calls}
+                si = by_sx.get(kw['inner_states'].sx) if kw.get('inner_states') is not None else None
+                so = by_sx.get(kw['states'].sx) if kw.get('states') is not None else None
                 if si is not None and so is not None:
                     ok = si is inner and so is not inner
                     ctx.ob('R3', ffi, c['node'], ok, 'states = outer result, inner_states = inner result' if ok else
@@ -227,32 +220,48 @@ def check_radius(ctx):
                'the diagonal (distance of a site to itself = 0) is included in the minimum: the radius collapses')
     if not tri:
         ctx.ob('R4', fi, 'minimum over site pairs', None, 'pair selection idiom not recognised')
-    # shrink assignment and overlap test
-    target = fi.node.args.args and None
-    ret_names = {norm_text(r.value) for r in ast.walk(fi.node) if isinstance(r, ast.Return) and r.value is not None}
+    # every returned radius r satisfies 2 r <= minimum site distance: either r = c1 * min + c2 (c1 <= 1/2, c2 <= 0), or r is
+    # returned under a condition that implies min >= 2 r
+    cfg = ctx.cfg(CSR)
+    mins = []
     for n in walk_no_nested(fi.node):
-        if isinstance(n, ast.If):
-            t = n.test
-            if isinstance(t, ast.Compare) and len(t.ops) == 1 and isinstance(t.ops[0], (ast.Lt, ast.LtE)):
-                lv, rv = it.value_of(t.left), it.value_of(t.comparators[0])
-                if lv is not None and lv.red is not None and lv.red[0] in ('min', 'amin') and rv is not None and rv.bin is not None:
-                    o, l, r, lt, rt = rv.bin
-                    factor = cval(l) if has_const(l) else (cval(r) if has_const(r) else None)
-                    name = rt if has_const(l) else lt
-                    ok = o == '*' and factor is not None and factor >= 2 and name in ret_names
-                    ctx.ob('R4', fi, t, True if ok else (False if factor is not None else None),
-                           'overlap test: minimum distance against twice the radius' if ok else
-                           f'overlap test compares the minimum distance with {norm_text(t.comparators[0])}: spheres of touching sites can overlap')
-                    # assignments in the body to the returned name
-                    for s in n.body:
-                        if isinstance(s, ast.Assign) and len(s.targets) == 1 and norm_text(s.targets[0]) in ret_names:
-                            c1, c2 = affine(s.value, norm_text(t.left))
-                            if c1 is None:
-                                ctx.ob('R4', fi, s, None, 'shrink formula not recognised as c1 * min_dist - c2')
-                            else:
-                                ok = c1 <= 0.5 and c2 <= 0 and not (c1 == 0.5 and c2 == 0 and False)
-                                ctx.ob('R4', fi, s, ok, f'radius = {c1} * min_dist {c2:+g}: spheres cannot overlap' if ok else
-                                       f'radius = {c1} * min_dist {c2:+g}: two site spheres can overlap, the assignment is no longer unique')
+        v = it.last.get(id(n)) if isinstance(n, ast.Call) else None
+        if v is not None and v.red is not None and v.red[0] in ('min', 'amin', 'nanmin') and v.geo == ('DIST',):
+            mins.append(it.sx(n))
+    cases = return_cases(it, fi, cfg)
+    if not mins or not cases:
+        ctx.ob('R4', fi, 'returned radius', None, 'minimum site distance or returned value not recognised')
+        return
+    M = norm_text(parse_sx(mins[0])) if parse_sx(mins[0]) is not None else mins[0]
+    for r, conds, e in cases:
+        if e is None:
+            ctx.ob('R4', fi, r, None, 'returned radius has no derivable expression')
+            continue
+        lf = linear(e, {M})
+        if lf is not None and lf[0][M] != 0:
+            c1, c2 = lf[0][M], lf[1]
+            ok = c1 <= 0.5 and c2 <= 0
+            ctx.ob('R4', fi, r, ok, f'radius = {c1:g} * min_dist {c2:+g}: spheres cannot overlap' if ok else
+                   f'radius = {c1:g} * min_dist {c2:+g}: two site spheres can overlap, the assignment is no longer unique')
+            continue
+        V = norm_text(e)
+        verdict, why = None, 'no condition relating the returned radius to the minimum site distance was recognised'
+        for t, pol in conds:
+            f = nonneg_form(t, pol, {M, V})
+            if f is None or f[0][M] == 0 or f[0][V] == 0:
+                continue
+            m, v, c = f[0][M], f[0][V], f[1]
+            if m < 0:
+                # an upper bound on the minimum distance: this is the overlapping branch, the radius must be shrunk there
+                verdict, why = False, 'the unshrunk radius is returned although the minimum site distance is below the overlap threshold'
+                break
+            k = -v / m
+            if k >= 2 and c <= 0:
+                verdict, why = True, f'returned only when min_dist >= {k:g} * radius'
+                break
+            verdict, why = False, (f'radius returned unshrunk when min_dist >= {k:g} * radius: spheres of sites closer than twice '
+                                   f'the radius overlap, the assignment is no longer unique')
+        ctx.ob('R4', fi, r, verdict, why)
 
 
 def affine(node, var):
